@@ -22,10 +22,13 @@ import (
 	"github.com/dgraph-io/badger/v4/y"
 )
 
+// c23Rotation: the data-key rotation interval of the case being run.
+var c23Rotation = time.Second
+
 func c23Opts(dir string, key []byte) Options {
 	o := smallOpts(dir)
 	o.EncryptionKey = key
-	o.EncryptionKeyRotationDuration = time.Second
+	o.EncryptionKeyRotationDuration = c23Rotation
 	o.IndexCacheSize = 1 << 20
 	o.BlockCacheSize = 1 << 20
 	o.ValueThreshold = 64
@@ -69,6 +72,21 @@ func init() {
 				return
 			})
 			_ = i
+		}
+		// a rotation interval that is longer than the time since the Unix epoch ("never rotate"): the very
+		// first data key must still be created; and a read-only open (op O) after the interval has elapsed
+		for _, sc := range []struct {
+			name string
+			rot  time.Duration
+			ops  string
+		}{{"rotation100y", 100 * 365 * 24 * time.Hour, "S B F R S F"}, {"rotationmax", time.Duration(1<<63 - 1), "S B F R"}, {"readonly-after-interval", time.Second, "S B F A O S A F O"}} {
+			sc := sc
+			e.do("scripted/"+sc.name, func() (c, d string) {
+				c23Rotation = sc.rot
+				defer func() { c23Rotation = time.Second }()
+				inBubble(e.t, func() { c, d = c23Run(e, keys[2], strings.Fields(sc.ops)) })
+				return
+			})
 		}
 		var rec func(seq []string)
 		rec = func(seq []string) {
@@ -214,6 +232,34 @@ func c23Run(e *enumCtx, masterKey []byte, seq []string) (string, string) {
 			}
 			if dk2, e2 := kr.LatestDataKey(); e2 != nil || dk2 == nil {
 				return "enc-no-data-key", fmt.Sprintf("after %v: after a failed KEYREGISTRY write (%v) the next LatestDataKey returned key %v, error %v: files would be written in plaintext", seq[:i+1], xerr, dk2, e2)
+			}
+		case "O":
+			// close, open read-only with the same key, read everything, close, re-open read-write
+			if err = db.Close(); err != nil {
+				break
+			}
+			db = nil
+			ro := c23Opts(dir, key)
+			ro.ReadOnly = true
+			rdb, rerr := Open(ro)
+			if rerr != nil {
+				return "enc-readonly-open", fmt.Sprintf("after %v: read-only open with the right key: %v", seq[:i+1], rerr)
+			}
+			bad := ""
+			_ = rdb.View(func(txn *Txn) error {
+				for k, w := range model {
+					if g := getStr(txn, k); g != w {
+						bad = fmt.Sprintf("Get(%s) = %q, want %q", k, shortVal(g), shortVal(w))
+					}
+				}
+				return nil
+			})
+			_ = rdb.Close()
+			if bad != "" {
+				return "enc-read-changed", fmt.Sprintf("after %v (read-only): %s", seq[:i+1], bad)
+			}
+			if s := reopen(key); s != "" {
+				return "c23-reopen", fmt.Sprintf("after %v: %s", seq[:i+1], s)
 			}
 		case "R":
 			if err = db.Close(); err == nil {
